@@ -38,7 +38,47 @@ func sigJSON(s *Sig) map[string]any {
 	for _, p := range s.Params {
 		ps = append(ps, p)
 	}
-	return map[string]any{"shape": s.Shape, "name": s.Name, "params": ps, "variadic": s.Variadic, "res": s.Res, "rk": s.Rk, "err": s.Err}
+	m := map[string]any{"shape": s.Shape, "name": s.Name, "params": ps, "variadic": s.Variadic, "res": s.Res, "rk": s.Rk, "err": s.Err}
+	if s.Res == "ext" {
+		m["xv"] = s.Xv
+	}
+	return m
+}
+
+// extOf mirrors Native!ExtOf: the extreme values of a result kind.
+func extOf(k string) []string {
+	switch k {
+	case "int", "int64":
+		return []string{"min", "max", "minus1", "p53p1", "negp53p1"}
+	case "int8", "int16", "int32":
+		return []string{"min", "max", "minus1"}
+	case "uint", "uint64":
+		return []string{"max", "p63", "p63m1", "p63p1", "p53p1"}
+	case "uint8", "uint16", "uint32":
+		return []string{"max"}
+	case "float32", "float64":
+		return []string{"fmax", "negfmax", "fden", "negfden"}
+	}
+	return nil
+}
+
+// parseExt turns the text "<%.0f> <%e>" of an extreme result into sign, decimal exponent and integer digits.
+func parseExt(text string) map[string]any {
+	m := map[string]any{"neg": false, "e10": 0, "digits": "", "ok": false}
+	f := strings.Fields(text)
+	if len(f) != 2 {
+		return m
+	}
+	ei := strings.LastIndexAny(f[1], "eE")
+	var e10 int
+	if ei < 0 {
+		return m
+	}
+	if _, err := fmt.Sscanf(f[1][ei+1:], "%d", &e10); err != nil {
+		return m
+	}
+	m["neg"], m["e10"], m["digits"], m["ok"] = strings.HasPrefix(f[1], "-"), e10, strings.TrimPrefix(f[0], "-"), true
+	return m
 }
 
 func randSig(r *rand.Rand, name string, allowErr bool) *Sig {
@@ -48,8 +88,16 @@ func randSig(r *rand.Rand, name string, allowErr bool) *Sig {
 		s.Params = append(s.Params, kindNames[r.Intn(len(kindNames))])
 	}
 	s.Variadic = np > 0 && r.Intn(3) == 0
-	switch r.Intn(4) {
+	switch r.Intn(5) {
 	case 0:
+	case 4: // an extreme value of a numeric kind
+		for {
+			s.Rk = kindNames[r.Intn(len(kindNames))]
+			if xs := extOf(s.Rk); xs != nil {
+				s.Res, s.Xv = "ext", xs[r.Intn(len(xs))]
+				break
+			}
+		}
 	case 1:
 		if np > 0 && !(s.Variadic && np == 1) {
 			s.Res, s.Rk = "echo", s.Params[0]
@@ -61,7 +109,7 @@ func randSig(r *rand.Rand, name string, allowErr bool) *Sig {
 	}
 	if s.Res != "none" {
 		s.Err = []string{"none", "nil"}[r.Intn(2)]
-		if allowErr && r.Intn(3) == 0 {
+		if allowErr && s.Res != "ext" && r.Intn(3) == 0 {
 			s.Err = "err"
 		}
 	}
@@ -167,6 +215,9 @@ func Record(seed int64, n int, out string) (int, error) {
 				fmt.Fprintf(&sb, "  print \"C:\" ((%s) \"\")\n", a)
 			}
 			fmt.Fprintf(&sb, "  r = %s(%s); print \"R:\" r\n", name, strings.Join(srcs, ", "))
+			if s.Res == "ext" {
+				sb.WriteString("  printf \"X:%.0f %e\\n\", r, r\n")
+			}
 		}
 		_ = errName
 		sb.WriteString("}\n")
@@ -199,7 +250,8 @@ func Record(seed int64, n int, out string) (int, error) {
 		li := 0 // next unread output line
 		for ci, cl := range calls {
 			ev := map[string]any{"ev": "step", "op": "call", "sig": sigJSON(sigs[cl.name]), "args": append([]string{}, cl.args...),
-				"called": true, "src": src, "o": "missing", "got": "", "recv": []any{}, "printed": "", "cf": cf, "shadow": shadow}
+				"called": true, "src": src, "o": "missing", "got": "", "recv": []any{}, "printed": "", "cf": cf, "shadow": shadow,
+				"xnum": parseExt("")}
 			awk := []string{}
 			for range cl.args {
 				if li < len(lines) && strings.HasPrefix(lines[li], "C:") {
@@ -231,6 +283,10 @@ func Record(seed int64, n int, out string) (int, error) {
 					ev["o"] = "ok"
 					ev["printed"] = lines[li][2:]
 					li++
+					if li < len(lines) && strings.HasPrefix(lines[li], "X:") {
+						ev["xnum"] = parseExt(lines[li][2:]) // the result through %.0f and %e: sign, exponent, digits
+						li++
+					}
 				} else if xerr != nil && ci == len(log)-1 {
 					ev["o"] = "abort"
 					ev["own"] = xerr == ErrSentinel
